@@ -27,7 +27,7 @@ const PROP: &str = "C05";
 /// documents. What a build configuration changes (recursion that release builds turn into loops,
 /// `debug_assert!`s, frame sizes) is one more thing correctness must not depend on.
 fn debug_stage() -> bool {
-    cfg!(debug_assertions)
+    simcore::debug_stage()
 }
 
 fn run_domain() -> u64 {
